@@ -789,6 +789,16 @@ func (s *state) check(where string, ctx stepCtx) bool {
 			s.biasSeries, s.biasHistSer, s.biasStale, s.biasBuckets, s.biasChunks = offS, offH, offSt, offB, offC
 			s.knownf(kind, "config {%s}\nafter %s: %s; gauge − recount: series %+d, histogram series %+d, stale series %+d, histogram buckets %+d, chunks %+d%s", s.cfg, where, why, offS, offH, offSt, -offB, offC, suffix())
 		}
+		s.tainted = true
+	}
+	if s.tainted {
+		s.taintedChecks++
+		s.mid = s.mid[:0]
+		if got := g("prometheus_tsdb_head_active_appenders"); got != float64(len(s.held)) {
+			c.Violatef("active-appenders-gauge-mismatch", "config {%s}\nafter %s: prometheus_tsdb_head_active_appenders = %v but the harness holds %d appenders%s", s.cfg, where, got, len(s.held), suffix())
+			return false
+		}
+		return true
 	}
 
 	// ---- numbers without a known defect class on a healthy head: exact
